@@ -18,6 +18,28 @@ NOT_APPLICABLE = {pid: "check not built yet in this round (planned, DESIGN.md se
 
 
 CHECKS = {
+    "C12": {
+        "level": "exploration",
+        "engine": "pure",
+        "technique": "property-based testing (rapid stateful/model-based): FIFO semaphore model vs ResourceSemaphore, slot model vs MaxJobsSemaphore, range oracle for request clamping",
+        "level_text": ("Model-based stateful search through the exported API: generated sequences of acquire (blocking, in goroutines) / release / availability-update "
+                       "operations on ResourceSemaphore checked after every step against a FIFO model (reserved <= max, grants only from the head and in request order, "
+                       "no lost wake-up, over-max fails at once, final drain completes); MaxJobsSemaphore with real Metadata objects (Current <= Limit, freed slots are "
+                       "handed on); GetSystemReqs clamps every finite request into (0, limit] and the result is acquirable. Every operation is one critical section, so "
+                       "operation sequences with blocked acquirers cover the interleavings. Exploration."),
+        "level_note": "Liveness is bounded progress (10 s settle per step, orders of magnitude above the microseconds needed); current size after availability updates is read from the implementation, not predicted.",
+        "rule": ("rapid t.Repeat sequences (<= ~30 steps, then a drain) of acquire(n in {0, exactly free, max, >max, random}), release, updateActual, updateFreeUsed, "
+                 "updateSize on limits {1,2,4,10,100,400}; MaxJobs: submit/finish(release | complete+FindDone | errors+FindDone)/FindDone with limit 1-4; GetSystemReqs: "
+                 "requests zero / negative / over limit / fractional. Non-trivial: semaphore history where a queued waiter was granted after a release or update; "
+                 "maxjobs history where more acquirers than the limit got through after blocking; request outside (0,limit] or fractional. Distinct by hash of the history."),
+        "assumptions": ["real job processes and the E2 overlap measurement are part of the E2 tier (added separately)"],
+        "units": [
+            U("props/sys", "TestC12ResourceSemaphore", (3000, 4), (40000, 8)),
+            U("props/sys", "TestC12MaxJobs", (1500, 3), (20000, 4)),
+            U("props/sys", "TestC12SystemReqs", (20000, 1), (300000, 2)),
+        ],
+        "floors": {"quick": {"semaphore": 5000, "maxjobs": 2000, "systemreqs": 10000}},
+    },
     "C08": {
         "level": "exploration",
         "engine": "pure",
